@@ -507,7 +507,11 @@ func keySig(w *World, o *propOwner, tag string) string {
 
 // zeroishValues are legitimate property values that a sloppy "is it nil?"
 // test would mistake for "remove".
-var zeroishValues = []interface{}{(*keyT)(nil), "", 0, false, keyA{}, (*tabular.Cell)(nil)}
+var zeroishValues = []interface{}{(*keyT)(nil), "", 0, false, keyA{}, (*tabular.Cell)(nil), ptrValA, ptrValB}
+
+// two distinct objects with equal contents: setting one after the other must
+// store the second one (identity), whatever "deep equality" says
+var ptrValA, ptrValB = &keyT{7}, &keyT{7}
 
 // sizeCheck enforces "stored state is a function of the keys held": whenever
 // an owner holds exactly the keys it held at some earlier step, the printed
